@@ -519,7 +519,65 @@ def run_C11(run):
                       CHECKER + "; tools/corr/impl_C11 | coq/extract/corr_model")
 
 
-TABLE = {"C11": run_C11, "C16": run_C16, "C19": run_C19, "C06": run_C06, "C14": run_C14, "C18": run_C18, "C05": run_C05, "C07": run_C07, "C01": run_C01, "C13": run_C13, "C09": run_C09, "C04": run_C04, "C02": run_C02, "C10": run_C10, "C08": run_C08, "C17": run_C17, "C12": run_C12}
+# ------------------------------------------------------------------------------------------ C15
+def run_C15(run):
+    import importlib.util, shlex
+    spec = importlib.util.spec_from_file_location("c15cfg", os.path.join(core.VERIF, "tools", "trace", "configs_C15.py")); m = importlib.util.module_from_spec(spec); spec.loader.exec_module(m)
+    jobs = []
+    for t, tu, tfl in m.TUS:
+        for c, fl in [("default", "")] + list(m.CFG):
+            jobs.append((tu, "Gen_C15_%s_%s" % (t, c), shlex.split(tfl) + shlex.split(fl)))
+    def one(j):
+        tu, mod, fl = j; std = "gnu++17"
+        if any(f.startswith("-std=") for f in fl): std = [f for f in fl if f.startswith("-std=")][0][5:]; fl = [f for f in fl if not f.startswith("-std=")]
+        return run.build_trace(tu, mod, fl, std=std, trials=2)
+    stats = par([lambda j=j: one(j) for j in jobs])
+    trace_cov(run, stats)
+    run.cov["configurations"] = len(m.CFG) + 1; run.cov["translation_units"] = len(m.TUS)
+    gens = [os.path.join(run.dir, j[1] + ".v") for j in jobs]
+    for g in gens:
+        if not os.path.exists(g): open(g, "w").write("(* trace failed *)\n")
+    run.prove(gens, ["C15/A_C15_defs.v", "C15/P_C15_fallbacks.v"], [], "C15/Properties_C15.v", timeout=1200)
+    # binary comparison of one operation table across configurations and optimisation levels
+    src = os.path.join(core.VERIF, "tools", "oracle", "oracle_C15.cpp")
+    builds = [("default_O0", [], "-O0")] + [("default_" + o[1:], [], o) for o in ("-O1", "-O2", "-O3")] + [(c + "_O0", shlex.split(fl), "-O0") for c, fl in m.CFG] + [(c + "_O2", shlex.split(fl), "-O2") for c, fl in m.CFG if c in ("cxx11", "inline", "quat_wxyz", "aligned", "xyzw_only", "pure")]
+    def tab(b):
+        name, fl, opt = b; std = "gnu++17"
+        if any(f.startswith("-std=") for f in fl): std = [f for f in fl if f.startswith("-std=")][0][5:]; fl = [f for f in fl if not f.startswith("-std=")]
+        exe = os.path.join(run.dir, "table_" + name); ok, err = run.build_cpp(src, exe, fl, std=std, opt=opt)
+        if not ok: return name, None, err
+        rc, out, e2, dt = core.sh([exe, "table", str(run.seed), run.tier], timeout=600)
+        return name, (out.split("\n") if rc == 0 else None), e2
+    res = dict((n, (o, e)) for n, o, e in par([lambda b=b: tab(b) for b in builds]))
+    base = res["default_O0"][0]; fails = []; ncmp = 0
+    if base is None: run.broken.append({"what": "operation table does not build in the default configuration", "detail": (res["default_O0"][1] or "")[-1500:]})
+    else:
+        for name, (out, err) in res.items():
+            if name == "default_O0": continue
+            if out is None: run.broken.append({"what": "operation table does not build / run under %s" % name, "detail": (err or "")[-1500:]}); continue
+            cfgname = name.rsplit("_", 1)[0]; seen = {}
+            for a, b in zip(base, out):
+                ncmp += 1
+                if a != b:
+                    op = a.split(" ")[0]; key = (op, cfgname)
+                    if seen.get(key, 0) < 2:
+                        seen[key] = seen.get(key, 0) + 1
+                        fb = cfgname in ("cxx98", "cxx03") and op in ("round", "roundEven", "iround", "exp2", "log2", "asinh", "acosh", "atanh", "vec_ops", "double")
+                        fails.append({"fn": op, "class": ("pre-C++11 fallback body (GLM_FORCE_CXX98 / CXX03)" if fb else "differs under " + name), "input": "build %s, line: %s" % (name, a[:120]), "expected": a[:200], "got": b[:200], "line": a})
+            if len(out) != len(base): fails.append({"fn": "table", "class": "differs under " + name, "input": "number of lines", "expected": str(len(base)), "got": str(len(out)), "line": ""})
+    run.cov["oracle_cases"] = ncmp; run.cov["oracle_functions_failing"] = sorted(set(f["fn"] for f in fails))[:30]
+    run.fails = run.triage(fails)
+    run.assumptions = ["identity of the regenerated decision trees gives bit-identical results for the traced templates (same operations, same order, same operands) under the compiler's IEEE arithmetic; the optimiser itself is outside the traces and is compared on a binary corpus (O0/O1/O2/O3, -ffp-contract=off)",
+                       "non-template code (packing, half, ULP functions, integer bit tricks, colour HSV) and the functions of the operation table that are not in the seven traced catalogues (exponential, trigonometric) are compared by the oracle only",
+                       "GLM_FORCE_CXX98 / CXX03 on a C++17 compiler select the pre-C++11 fallback bodies: fmin / fmax / fclamp / trunc are proved equal in meaning, the others are known findings",
+                       "GLM_FORCE_DEFAULT_ALIGNED_GENTYPES without SIMD does not compile (missing compute_vec_mul<4,float,aligned_highp,true>::call) and SIMD configurations are semantic switches (property C03): not in the list"]
+    run.samples.append("operation table: 45 operation groups (common, exponential, trigonometric, vector, geometric, matrix, transform, quaternion, Euler, packing, ULP, integer, colour, double, constructors) x 1500 inputs (special values 0.49999997, 8388609, 2^31, +-0, denormal, max mixed with random) x 31 builds")
+    return run.finish(TRUST_COMMON + ["oracle_C15.cpp: one operation table built under every configuration / optimisation level, outputs compared line by line (violation search)"],
+                      "theorems: every entry of 7 regenerated catalogues x 20 configurations, all argument values symbolic; oracle: 31 builds of the operation table on a common corpus",
+                      CHECKER)
+
+
+TABLE = {"C15": run_C15, "C11": run_C11, "C16": run_C16, "C19": run_C19, "C06": run_C06, "C14": run_C14, "C18": run_C18, "C05": run_C05, "C07": run_C07, "C01": run_C01, "C13": run_C13, "C09": run_C09, "C04": run_C04, "C02": run_C02, "C10": run_C10, "C08": run_C08, "C17": run_C17, "C12": run_C12}
 
 
 def replay(pid, path):
